@@ -56,7 +56,7 @@ claimed = {
    technique="SSA symbolic execution with exhaustive interleaving exploration (bounded model checking of schedules)",
    design="5 C18"),
  "C16": dict(
-   text="Two of the three pieces of recovery are decided: (1) the real locateBirthdayBlock over a chain stub whose block timestamps are an arbitrary monotone symbolic function, with symbolic best height (chains up to 16 blocks quick, 64 thorough) and symbolic birthday: terminates within log2 steps, returns a block of the chain that is block 0 or not later than birthday+2h; (2) the real BranchRecoveryState, expandScopeHorizons and extendFoundAddresses with a key manager whose derivation marks arbitrary child indexes invalid (symbolic): after every expansion every valid index inside the look-ahead window is derived and watched and W valid addresses lie beyond the highest found index; after a find the next index is above the highest used, the manager is extended to it and the address marked used.",
+   text="Three pieces: (1) the real locateBirthdayBlock over a chain stub whose block timestamps are an arbitrary monotone symbolic function, with symbolic best height (chains up to 16 blocks quick, 64 thorough) and symbolic birthday: terminates within log2 steps, returns a block of the chain that is block 0 or not later than birthday+2h; (2) the real BranchRecoveryState, expandScopeHorizons and extendFoundAddresses with a key manager whose derivation marks arbitrary child indexes invalid (symbolic): after every expansion every valid index inside the look-ahead window is derived and watched and W valid addresses lie beyond the highest found index; after a find the next index is above the highest used, the manager is extended to it and the address marked used.",
    note="The full recovery loop (block filtering, recorded transactions, final balance, batch boundaries, interruption) is NOT covered; see not-covered list in evidence.assumptions. Bounded chain length / window; Time.Sub stubbed by contract; piece 2 uses function stubs and engine re-execution instead of native replay.",
    technique="SSA symbolic execution + SMT (symbolic monotone timestamps, integer-mode arithmetic) and bounded exploration with symbolic invalid-child pattern",
    design="5 C16"),
@@ -107,6 +107,34 @@ claimed = {
    design="5 C11"),
 }
 
+# what later sessions added to each check (appended to the claim text)
+addenda = {
+ "C01": " Also at the wallet level: Wallet.CalculateBalance (symbolic minconf/maturity) and Wallet.ListUnspent on a real wallet with nine differently situated credits; universes with two conflicting unconfirmed spenders of one credit (fixed preamble).",
+ "C02": " Further universes: a spender with two debits, two conflicting unconfirmed spenders with a third transaction conflicting on another input, descendants through non-credit outputs; PreviousPkScripts compared.",
+ "C04": " Also: a taproot address (32-byte address id) and used flags before any import; root key neutered before conversion; after conversion no stored field may open under the master or the private crypto key (ideal AEAD); a private key imported into the reopened watching-only wallet must not reach the database; wallet-level Wallet.InitAccounts(watchOnly) migration; ImportPrivateKey racing Lock.",
+ "C05": " Further states: account row reloaded while unlocked, imported watch-only account, imports into a key scope without loaded account, invalidated account cache, secret taproot script (accessor used once before Lock), address object derived by path and kept by the caller, failed Unlock, a 110-byte passphrase with one-byte-off guesses from locked and while unlocked.",
+ "C06": " The second send also goes through FundPsbt without inputs (CreateSimpleTx and the serialising txCreator goroutine); an unconfirmed leased coin and a leased coin whose unconfirmed spend was abandoned are among the credits.",
+ "C07": " The caller's output slice (spare capacity) must stay untouched; a wallet-level entry feeds NewUnsignedTransaction from the wallet's real makeInputSource / constantInputSource with symbolic coin amounts.",
+ "C08": " Also: the same request retried in a committed transaction after one that did not commit; two operations inside ONE committed transaction (every ordered pair); an imported account with an overriding address schema; wallet-level dry-run transaction creation (symbolic amount around the dust boundary of the change).",
+ "C09": " All six newAddrMtx call sites are driven now (also txToOutputs, FundPsbt with supplied inputs, ImportAccountDryRun) plus a spender from the imported-keys account, whose change comes from account 0.",
+ "C10": " Address-manager part: 19 operations from two pre-states; after the rolled-back operation the passphrase must still be accepted (while unlocked and from locked) and a never-installed one refused. Store part: also from a state with two unconfirmed spenders of one outpoint.",
+ "C11": " Values may be empty or nil; a second top-level bucket is created, looked up, deleted and looked up again inside transactions; a final View succeeds, fails or panics and the database is then closed (Close waits for open transactions in the model, as in bbolt).",
+ "C12": " Also: fixed preambles (output leased first; unconfirmed output), a confirmed spend by a transaction other than the known unconfirmed spender, and a wallet-level entry (Wallet.LeaseOutput/ReleaseOutput, balance, ListUnspent) on the store's real clock with time.Now symbolic.",
+ "C13": " PreviousPkScripts asserted; universes with a lower-index change credit and with two conflicting unconfirmed spenders.",
+ "C14": " Also Store.UnminedTxs over a real store with dependencies through non-credit outputs, fixed wider graphs on 4-6 transactions, and a reader concurrent with an uncommitted writer.",
+ "C15": " Further evolutions: a reorg that starts or happens entirely while a rescan is running, an out-of-order connect (refused, tip unchanged); the wallet knows its birthday block, so PutSyncedTo's predecessor check is active.",
+ "C16": " The third piece is built too: the real recovery loop (Wallet.recovery, RecoveryManager incl. Resurrect, real address manager, store and chain.BlockFilterer) on chains of 2-3 chosen blocks (receipts, several wallet outputs per transaction, same-block sweeps, changeless spends, payments at or below the highest index, BIP0084 or BIP0049Plus), with resumption, one injected backend failure with in-process retry, and a 2005-block chain around the 2000-block batch boundary.",
+ "C17": " Also a 70-byte passphrase with one-byte-off guesses at chosen positions.",
+ "C18": " Also the notification queues inside the btcd and neutrino clients (real handler goroutines): concurrent producer/consumer, a 61-notification burst with more than 32 pending, Stop with a backlog and no reader.",
+ "C19": " Also two upgrades with the same manager and table, the real wtxmgr manager upgraded twice through the same manager value, and wallet.Open (both namespaces in one transaction) with symbolic stored versions of both namespaces and an optional failing write.",
+ "C20": " Also: three unconfirmed transactions accepted/rejected independently on rebroadcast (symbolic reject code), a second resynchronisation, incoming transactions without wallet inputs and descendants linked only through non-credit outputs.",
+ "C03": " Three concrete seeds now (leading zero byte at m/84'/0' and at m/84'); two accounts with addresses issued while locked.",
+}
+notes_override = {
+ "C16": "Bounded chain length / window; Time.Sub stubbed by contract; piece 2 uses function stubs and engine re-execution instead of native replay; the full loop runs on a concrete seed with at most 3 non-empty blocks.",
+ "C09": "Bounded: 2 callers, preemption bound 1-2. Data-race freedom assumed. Schedule-dependent counterexamples are confirmed by deterministic re-execution in the executor when the native scheduler does not reproduce them.",
+}
+
 not_applicable = {
 }
 
@@ -125,8 +153,8 @@ def main():
             "evidence_file": f"/verif/evidence/{pid}.json",
             "replay_cmd_template": "bin/symgo replay {path}",
             "engine": "symgo",
-            "level_claimed": {"category": "model_checking", "text": c["text"], "design_ref": c["design"]},
-            "level_note": c["note"],
+            "level_claimed": {"category": "model_checking", "text": c["text"] + addenda.get(pid, ""), "design_ref": c["design"]},
+            "level_note": notes_override.get(pid, c["note"]),
             "technique": c["technique"],
         })
     na = []
